@@ -36,6 +36,9 @@ pub struct Outcome {
     pub pushes: BTreeMap<usize, Vec<R>>,
 }
 
+/// the one script the connection-level model understands: forward ARGV as a command
+pub const FORWARD_SCRIPT: &str = "return redis.call(unpack(ARGV))";
+
 fn bulk(b: &[u8]) -> R {
     R::Bulk(b.to_vec())
 }
@@ -136,6 +139,25 @@ impl ConnModel {
                 }
                 let n = self.publish(&args[1], &args[2], pushes);
                 Exp::Is(R::Int(n))
+            }
+            "EVAL" | "EVALSHA" => {
+                // only the generic forwarding script is modelled: the script runs ARGV as one command on the
+                // connection's database; its reply goes through the Lua conversion, which is C12's subject,
+                // so here only "error or not" and the effect are judged
+                let is_forward = args.len() >= 3 && (args[1] == FORWARD_SCRIPT.as_bytes() || args[1] == b"@SHA".to_vec()) && args[2] == b"0".to_vec();
+                if !is_forward || args.len() < 4 {
+                    return Exp::Any;
+                }
+                let inner: Vec<Bytes> = args[3..].to_vec();
+                let inner_name = upper(&inner[0]);
+                if matches!(inner_name.as_str(), "SELECT" | "MULTI" | "EXEC" | "WATCH" | "SUBSCRIBE" | "BLPOP" | "BRPOP" | "EVAL" | "EVALSHA") {
+                    return Exp::Err;
+                }
+                let e = self.data_cmd(c, &inner, &R::Null);
+                match e {
+                    Exp::Err => Exp::Err,
+                    _ => Exp::Pred("any non-error reply (conversion judged by C12)".into(), Box::new(|a| !a.is_err())),
+                }
             }
             _ => self.data_cmd(c, args, actual),
         }
